@@ -855,7 +855,31 @@ void cursor_level(Ctx& cx, View v, Cursor& c, ScriptState& ss, u64 inst_start)
                             };
                             using size_type = typename decltype(g)::size_type;
                             const size_type total = g.size();
-                            if(d.split < 0 || total == 0)
+                            if(d.split == -2)
+                            {
+                                // the explicit iterator pair instead of a range-for, post-increment
+                                auto it = g.cursor_begin(c);
+                                const auto last = g.cursor_end(c);
+                                while(it != last)
+                                {
+                                    const auto e = *it;
+                                    CursorStep st;
+                                    st.level = Child::index;
+                                    st.inst_start = (u64)cx.off(sbepp::addressof(e));
+                                    st.mkind = T_LEVEL;
+                                    st.member = gi;
+                                    st.wrapper = W_PLAIN;
+                                    st.has_addr = true;
+                                    st.addr_off = cx.off(sbepp::addressof(e));
+                                    st.cursor_off = cx.off(c.pointer());
+                                    st.cursor_before = st.cursor_off;
+                                    if(cx.rs->csteps.size() >= kMaxRecords) runaway();
+                                    cx.rs->csteps.push_back(st);
+                                    cursor_level<Child>(cx, e, c, ss, (u64)st.addr_off);
+                                    it++;
+                                }
+                            }
+                            else if(d.split < 0 || total == 0)
                                 run_range(g.cursor_range(c));
                             else
                             {
